@@ -45,6 +45,10 @@ __all__ = ()
 PATTERNS = ["*.pdb"]
 
 
+class _NoMoleculeError(LoadError):
+    """Raised by load_one when no ATOM or HETATM record is left, e.g. after the last frame."""
+
+
 def _parse_pdb_atom_line(line, lit):
     """Parse an ATOM or HETATM line from a PDB file.
 
@@ -198,7 +202,7 @@ def load_one(lit: LineIterator) -> dict:
             end_reached = True
             break
     if not molecule_found:
-        raise LoadError("Molecule could not be read.", lit)
+        raise _NoMoleculeError("Molecule could not be read.", lit)
     if not end_reached:
         warn(
             LoadWarning("The END is not found, but the parsed data is returned.", lit), stacklevel=2
@@ -253,9 +257,11 @@ def load_many(lit: LineIterator) -> Iterator[dict]:
     while True:
         try:
             data = load_one(lit)
-        except LoadError:
+        except _NoMoleculeError:
             # Without any molecule, this is not a PDB file. After the last
             # molecule, only records without atoms (e.g. END) are left.
+            # Any other LoadError (a record that cannot be parsed) is not the
+            # end of the file and must reach the caller.
             if nframe == 0:
                 raise
             return
